@@ -257,6 +257,30 @@ pub fn run(ctx: &Ctx) -> (Stats, Report) {
                     }
                 }
             }
+            // every single-character insertion (all 128 ASCII values) at every gap - also inside a
+            // token spelling - and every single-character deletion
+            for pos in 0..=chars.len() {
+                for c in 0u8..=128 {
+                    let mut v = chars.clone();
+                    if c < 128 {
+                        v.insert(pos, c as char);
+                    } else if pos < v.len() {
+                        v.remove(pos);
+                    } else {
+                        continue;
+                    }
+                    let sub: String = v.into_iter().collect();
+                    for pic in [sub.clone(), format!("YYYY {sub}"), format!("{sub}:MI")] {
+                        st.evaluations += 1;
+                        st.fps.push(hash_bytes(0x19d, pic.as_bytes()));
+                        st.class(if c < 128 { "single-character-insertion" } else { "single-character-deletion" });
+                        if let Err(m) = check_picture(&pic) {
+                            st.fail(bi, Case::new(P, "picture", vec![], vec![pic]), m);
+                            return;
+                        }
+                    }
+                }
+            }
         }
     });
     st.merge(s);
@@ -458,7 +482,7 @@ pub fn run(ctx: &Ctx) -> (Stats, Report) {
     st.section("random_token_sequences", &mut mark);
 
     let rep = Report {
-        rule: format!("E1: every string of length 0..={maxlen} over the {}-symbol picture alphabet (exhaustive); near-miss spellings alone and embedded; 14 invisible / ignorable characters (byte order mark, zero-width and non-breaking spaces, separators, control whitespace) at every token boundary of valid pictures; blank runs of every length 1..=700 (alone, between number tokens, and next to name tokens for every month / weekday name) and of length 2^k-1, 2^k, 2^k+1 for k = 8..=20, 2^k+1 up to 2^25 (all three up to 2^27 in the thorough tier: pictures of 128 MiB); 30..=42 repetitions of every documented token spelling (and of token + separator pairs) around the 36-token limit. E2: proptest token sequences of 0..=40 tokens (34..=38 over-sampled) with random letter case, blank runs up to 600 and an optional near-miss spelling spliced in. Every rendering goes through both Formatter::format and T::format + write!, and the one-shot Timestamp::parse wrapper must not reject an accepted picture as a format error. Oracle: reference longest-match tokenizer: try_new is Ok iff it accepts (<= 36 tokens), rejection must be Error::InvalidFormat, from Formatter::try_new and from the one-shot parse / format wrappers of all six types; for accepted pictures the text formatted for the probe 2003-04-09 17:28:56.123456 (every field distinct) must equal the reference rendering of the reference token list (identifies token identity, name case and exact blank-run length); every letter-case pattern of MONTH / MON / DAY / DY / AM / PM / A.M. / P.M. (alone, doubled, embedded) is formatted for 19 probes covering every month name, every weekday name and both meridians. Run under both build profiles. Non-trivial = accepted by the reference, or rejected but one end-deletion away from an accepted picture, or containing a near-miss spelling.", ALPHABET.len()),
+        rule: format!("E1: every string of length 0..={maxlen} over the {}-symbol picture alphabet (exhaustive); near-miss spellings alone and embedded; every single-character substitution, insertion (all 128 ASCII values, also inside a token spelling) and deletion at every position of every token spelling and of composite pictures; 14 invisible / ignorable characters (byte order mark, zero-width and non-breaking spaces, separators, control whitespace) at every token boundary of valid pictures; blank runs of every length 1..=700 (alone, between number tokens, and next to name tokens for every month / weekday name) and of length 2^k-1, 2^k, 2^k+1 for k = 8..=20, 2^k+1 up to 2^25 (all three up to 2^27 in the thorough tier: pictures of 128 MiB); 30..=42 repetitions of every documented token spelling (and of token + separator pairs) around the 36-token limit. E2: proptest token sequences of 0..=40 tokens (34..=38 over-sampled) with random letter case, blank runs up to 600 and an optional near-miss spelling spliced in. Every rendering goes through both Formatter::format and T::format + write!, and the one-shot Timestamp::parse wrapper must not reject an accepted picture as a format error. Oracle: reference longest-match tokenizer: try_new is Ok iff it accepts (<= 36 tokens), rejection must be Error::InvalidFormat, from Formatter::try_new and from the one-shot parse / format wrappers of all six types; for accepted pictures the text formatted for the probe 2003-04-09 17:28:56.123456 (every field distinct) must equal the reference rendering of the reference token list (identifies token identity, name case and exact blank-run length); every letter-case pattern of MONTH / MON / DAY / DY / AM / PM / A.M. / P.M. (alone, doubled, embedded) is formatted for 19 probes covering every month name, every weekday name and both meridians. Run under both build profiles. Non-trivial = accepted by the reference, or rejected but one end-deletion away from an accepted picture, or containing a near-miss spelling.", ALPHABET.len()),
         assumptions: vec!["a name token with lower-case first and upper-case second letter, and a mixed-case meridian token, have no style fixed by the statement: compared ignoring case".into()],
         exhaustive: false,
         extra: Default::default(),
